@@ -20,7 +20,7 @@ def gen_behaviours(tier):
     r = tlc("HistGen", consts=dict(CONSTS, MaxOps=2, MaxRestarts=2, MaxSnaps=1), workers=4)
     out += r.json_lines
     runs.append(("HistGen exhaustive MaxOps=2", r))
-    n, d = (1500, 10) if tier == "quick" else (20000, 14)
+    n, d = (6000, 12) if tier == "quick" else (40000, 16)
     r = tlc("HistGen", consts=dict(CONSTS, MaxOps=d, MaxRestarts=3, MaxSnaps=2), simulate=n, depth=d + 2, seed_=seed())
     out += r.json_lines
     runs.append(("HistGen simulate num=%d depth=%d" % (n, d), r))
@@ -73,6 +73,8 @@ def replay_and_judge(ck, behaviours, tier, tag="main"):
 def run(tier):
     ck = Check("C02", tier)
     vlib.build()
+    import durability_common
+    durability_common.model_check(ck, tier)
     behaviours, runs = gen_behaviours(tier)
     for name, r in runs:
         ck.add_tlc(name, r)
